@@ -33,31 +33,73 @@ contract(f"{M}:RTCSctpTransport._data_channel_open", params={"channel": "RTCData
          modifies=["content(self._data_channels)", "content(self._data_channel_queue)"],
          tags=["C13"])
 
-# ---------------------------------------------------------------------------- receiving side
-# Assumed (not verified here): flushing hands queued messages to the SCTP layer; it touches the queue, the channel table
-# (id allocation) and channel bookkeeping, and raises nothing.  Listed as a trusted contract in the evidence.
-contract(f"{M}:RTCSctpTransport._data_channel_flush",
-         raises={}, ensures=["all_in(old(self._data_channels), lambda k: k in self._data_channels and "
-                             "same(self._data_channels[k], old(self._data_channels[k])))",
-                             # an id, once set, is kept (_setId is only reached for channel.id is None)
-                             "all_in(old(self._data_channels), lambda k: implies(old(self._data_channels[k].__id) is not None, "
-                             "self._data_channels[k].__id == old(self._data_channels[k].__id)))",
-                             # the event log of a channel only grows
-                             "all_in(old(self._data_channels), lambda k: len(self._data_channels[k].emitted) >= "
-                             "old(len(self._data_channels[k].emitted)) and implies(old(len(self._data_channels[k].emitted)) > 0, "
-                             "self._data_channels[k].emitted[0] == old(self._data_channels[k].emitted[0])))"],
-         modifies=["content(self._data_channel_queue)", "content(self._data_channels)", "*RTCDataChannel._RTCDataChannel__id",
-                   "*RTCDataChannel._RTCDataChannel__bufferedAmount", "*list<Seq_Str>"],
-         trusted=True, tags=["C13"],
-         note="assumed: _data_channel_flush keeps every registered channel registered under its id, keeps ids once set, only appends to event logs")
+# ---------------------------------------------------------------------------- flushing queued messages
+klass(f"{M}:RTCSctpTransport", fields={"_data_channel_id": "opt[int]", "_outbound_queue": "deque[DataChunk]"})
 
+contract("aiortc.rtcdatachannel:RTCDataChannel._setId", params={"id": "int"}, raises={},
+         ensures=["self.__id == id"], modifies=["self.__id"], tags=["C13"])
+
+# Assumed: _send fragments the message into the outbound queue and transmits; it touches no data-channel state.
+contract(f"{M}:RTCSctpTransport._send",
+         params={"stream_id": "int", "pp_id": "int", "user_data": "bytes", "expiry": "opt[float]",
+                 "max_retransmits": "opt[int]", "ordered": "bool"},
+         raises={}, ensures=[], modifies=["content(self._outbound_queue)"],
+         trusted=True, tags=["C13", "C06"],
+         note="assumed: _send (fragmentation, TSN assignment, _transmit) changes no data-channel state and raises nothing")
+
+EST_ = "self._association_state == RTCSctpTransport.State.ESTABLISHED"
+TABLE_NN = "all_in(self._data_channels, lambda k: 0 <= k)"
+TABLE_ID = "all_in(self._data_channels, lambda k: self._data_channels[k].__id is not None and self._data_channels[k].__id == k)"
+QUEUE_OK = ("all_in(self._data_channel_queue, lambda it: implies(it[0].__id is not None, it[0].__id in self._data_channels and "
+            "same(self._data_channels[it[0].__id], it[0])))")
+KEPT = ("all_in(old(self._data_channels), lambda k: k in self._data_channels and "
+        "same(self._data_channels[k], old(self._data_channels[k])))")
+GROWS = ("all_in(old(self._data_channels), lambda k: len(self._data_channels[k].emitted) >= "
+         "old(len(self._data_channels[k].emitted)) and implies(old(len(self._data_channels[k].emitted)) > 0, "
+         "self._data_channels[k].emitted[0] == old(self._data_channels[k].emitted[0])))")
+contract(f"{M}:RTCSctpTransport._data_channel_flush",
+         requires=[TABLE_NN, TABLE_ID, QUEUE_OK,
+                   f"implies({EST_}, self._data_channel_id is not None and 0 <= self._data_channel_id <= 1)"],
+         raises={},
+         ensures=[KEPT,
+                  # an id, once set, is kept (only channels without an id are numbered), the table stays id -> channel
+                  TABLE_NN, TABLE_ID,
+                  # the event log of a channel only grows
+                  GROWS,
+                  # ids handed out here have the parity of this end's role
+                  f"implies({EST_}, all_in(self._data_channels, lambda k: k in old(self._data_channels) or "
+                  "k % 2 == self._data_channel_id % 2))"],
+         # what is handed to the SCTP layer, stated where the channel is known: the channel's own stream; DCEP messages
+         # reliable and ordered; user messages with the channel's settings, a lifetime only if the channel has one
+         at_call={"_send": [
+             "channel.__id is not None and stream_id == channel.__id and pp_id == protocol",
+             "implies(protocol == 50, expiry is None and max_retransmits is None and ordered)",
+             "implies(protocol != 50, (expiry is None) == (channel.__parameters.maxPacketLifeTime is None or "
+             "channel.__parameters.maxPacketLifeTime == 0))",
+             "implies(protocol != 50, max_retransmits == channel.__parameters.maxRetransmits and "
+             "ordered == channel.__parameters.ordered)"]},
+         locals={"channel": "RTCDataChannel", "protocol": "int", "user_data": "bytes", "stream_id": "opt[int]",
+                 "expiry": "opt[float]"},
+         loops={0: dict(kind="while", decreases="unproved", invariant=[
+                    TABLE_NN, TABLE_ID, QUEUE_OK, KEPT, GROWS, EST_,
+                    "self._data_channel_id is not None and 0 <= self._data_channel_id <= 1",
+                    "all_in(self._data_channels, lambda k: k in old(self._data_channels) or "
+                    "k % 2 == self._data_channel_id % 2)"]),
+                1: dict(kind="while", decreases="unproved", invariant=[
+                    "stream_id is not None and 0 <= stream_id and stream_id % 2 == self._data_channel_id % 2"])},
+         modifies=["content(self._data_channel_queue)", "content(self._data_channels)", "content(self._outbound_queue)",
+                   "*RTCDataChannel._RTCDataChannel__id", "*RTCDataChannel._RTCDataChannel__bufferedAmount", "*list<Seq_Str>"],
+         tags=["C13", "C06"])
+
+# ---------------------------------------------------------------------------- receiving side
 OPEN_OK = ("pp_id == 50 and len(data) >= 12 and data[0] == 3 and not (stream_id in self._data_channels) and "
            "12 + u16(data, 8) + u16(data, 10) <= len(data) and "
            "valid_utf8(data[12:12 + u16(data, 8)]) and valid_utf8(data[12 + u16(data, 8):12 + u16(data, 8) + u16(data, 10)])")
 CH = "self._data_channels[stream_id]"
 contract(f"{M}:RTCSctpTransport._data_channel_receive", params={"stream_id": "int", "pp_id": "int", "data": "bytes"},
          # what is decided here is the DATA_CHANNEL_OPEN branch for a well-formed message on a fresh stream
-         requires=[OPEN_OK, "0 <= stream_id < 65536"],
+         requires=[OPEN_OK, "0 <= stream_id < 65536", TABLE_NN, TABLE_ID, QUEUE_OK,
+                   f"implies({EST_}, self._data_channel_id is not None and 0 <= self._data_channel_id <= 1)"],
          raises={},
          ensures=[
              f"stream_id in self._data_channels and fresh({CH})",
@@ -73,8 +115,8 @@ contract(f"{M}:RTCSctpTransport._data_channel_receive", params={"stream_id": "in
              # the channel is open and the first event emitted on it is 'open'
              f"{CH}.__readyState == 'open' and len({CH}.emitted) >= 1 and {CH}.emitted[0] == 'open'",
          ],
-         modifies=["content(self._data_channels)", "content(self._data_channel_queue)", "*RTCDataChannel._RTCDataChannel__id",
-                   "*RTCDataChannel._RTCDataChannel__bufferedAmount", "*list<Seq_Str>"],
+         modifies=["content(self._data_channels)", "content(self._data_channel_queue)", "content(self._outbound_queue)",
+                   "*RTCDataChannel._RTCDataChannel__id", "*RTCDataChannel._RTCDataChannel__bufferedAmount", "*list<Seq_Str>"],
          witness=[{"stream_id": 1, "pp_id": 50, "data": bytes.fromhex("03 81 0000 00000005 0002 0001") + "\u00e9".encode() + b"p"},
                   {"stream_id": 65535, "pp_id": 50, "data": bytes.fromhex("03 02 0100 ffffffff 0000 0000")},
                   {"stream_id": 0, "pp_id": 50, "data": bytes.fromhex("03 83 0000 00000007 0003 0000") + "\u65e5".encode() + b"xx"}],
